@@ -212,6 +212,166 @@ def shape_detach_running_same_output():
     }
 
 
+def shape_rm_before_write():
+    """Steps that remove their old outputs before regenerating them (`rm -f out; ... > out`): a rerun
+    has a window in which an OUTDATED output is absent from disk (a kill in that window makes the restart
+    see an externally deleted OUTDATED file)."""
+    regen = [["read_declared"], ["unlink_declared"], ["nop"], ["write_declared"]]
+    return {
+        "name": "rm_before_write",
+        "sources": {"plan.py": ["v1"], "s1.txt": ["a", "b"], "s2.txt": ["a", "b"]},
+        "scripts": {
+            "./plan.py": {
+                "on": "plan.py",
+                "versions": {
+                    "v1": [
+                        ["static", ["s1.txt", "s2.txt"]],
+                        ["step", "R1", {"inp": ["s1.txt"], "out": ["r1.txt"]}],
+                        ["step", "R2", {"inp": ["r1.txt", "s2.txt"], "out": ["r2.txt", "r2b.txt"]}],
+                    ]
+                },
+            },
+            "R1": regen,
+            "R2": regen,
+        },
+    }
+
+
+def shape_env_shared():
+    """Several steps track the same environment variables; the variables change and change back."""
+    w = [["getenv_declared"], ["read_declared"], ["write_declared"]]
+    return {
+        "name": "env_shared",
+        "sources": {"plan.py": ["v1"], "s1.txt": ["a", "b"]},
+        "scripts": {
+            "./plan.py": {
+                "on": "plan.py",
+                "versions": {
+                    "v1": [
+                        ["static", ["s1.txt"]],
+                        ["step", "E1", {"env": ["VV_A"], "inp": ["s1.txt"], "out": ["e1.txt"]}],
+                        ["step", "E2", {"env": ["VV_A", "VV_B"], "out": ["e2.txt"]}],
+                        ["step", "E3", {"env": ["VV_B"], "out": ["e3.txt"]}],
+                        ["step", "E4", {"env": ["VV_A"], "out": ["e4.txt"]}],
+                        ["step", "E5", {"env": ["VV_B"], "inp": ["e3.txt"], "out": ["e5.txt"]}],
+                    ]
+                },
+            },
+            "E1": w, "E2": w, "E3": w, "E4": w, "E5": w,
+        },
+        # the first element is applied before the first build, the others are the later phases
+        "extra_histories": [
+            [[["env", "VV_A", "alpha"]], [["env", "VV_A", "beta"]], [["env", "VV_A", "alpha"]]],
+            [[["env", "VV_A", "alpha"], ["env", "VV_B", "x"]], [["env", "VV_A", "beta"], ["env", "VV_B", None]],
+             [["env", "VV_A", "alpha"], ["env", "VV_B", "x"]], [["env", "VV_B", None]]],
+            [[], [["env", "VV_B", "y"], ["set", "s1.txt", "b"]], [["env", "VV_B", None]], [["env", "VV_B", "y"]]],
+        ],
+    }
+
+
+def shape_late_static():
+    """A step amends an input that its (still running) plan declares static only later: depending on the
+    schedule the step finds it, or asks to be deferred and the input is confirmed before / after the
+    step's completion is recorded.  Every schedule must end in the same successful build."""
+    return {
+        "name": "late_static",
+        "sources": {"plan.py": ["v1"], "late.txt": ["a", "b"], "s1.txt": ["a", "b"]},
+        "scripts": {
+            "./plan.py": {
+                "on": "plan.py",
+                "versions": {
+                    "v1": [
+                        ["static", ["s1.txt"]],
+                        ["step", "WK", {"inp": ["s1.txt"], "out": ["wk.txt"]}],
+                        ["step", "WK2", {"out": ["wk2.txt"]}],
+                        ["nop"], ["nop"], ["nop"],
+                        ["static", ["late.txt"]],
+                        ["nop"], ["nop"],
+                    ]
+                },
+            },
+            # both take their time to terminate after a refused amend (cleaning up)
+            "WK": [["amend", {"inp": ["late.txt"]}, [["nop"], ["nop"], ["nop"], ["nop"], ["nop"], ["nop"]]],
+                   ["read", "late.txt"], ["read_declared"], ["write_declared"]],
+            "WK2": [["nop"], ["amend", {"inp": ["late.txt"]}, [["nop"], ["nop"], ["nop"]]], ["nop"], ["read", "late.txt"], ["write_declared"]],
+        },
+    }
+
+
+def shape_amend_cycle():
+    """Steps that try to amend an input whose builder (already defined, so the file is attached) depends on
+    their own output: every such request must be rejected as cyclic, whatever the order of arrival."""
+    return {
+        "name": "amend_cycle",
+        # who is refused depends on who comes first: A's amendment when the plan has defined C already,
+        # the plan's definition of C when A's amendment was recorded before (the project is contradictory)
+        "schedule_dependent": True,
+        "sources": {"plan.py": ["v1"], "s1.txt": ["a", "b"]},
+        "scripts": {
+            "./plan.py": {
+                "on": "plan.py",
+                "versions": {
+                    "v1": [
+                        ["static", ["s1.txt"]],
+                        # the plan itself: an amended output, a step that turns it into x.txt, x.txt amended as input
+                        ["amend", {"out": ["y.txt"]}],
+                        ["write", "y.txt"],
+                        ["step", "CP", {"inp": ["y.txt"], "out": ["x.txt"]}],
+                        ["try", ["amend", {"inp": ["x.txt"]}]],
+                        ["step", "A", {"inp": ["s1.txt"], "out": ["a.txt"]}],
+                        ["step", "B", {"inp": ["a.txt"], "out": ["b.txt"]}],
+                        ["step", "C", {"inp": ["b.txt"], "out": ["c.txt"]}],
+                    ]
+                },
+            },
+            "CP": GENERIC_WORKER,
+            "A": [["read_declared"], ["try", ["amend", {"inp": ["c.txt"]}]], ["write_declared"]],
+            "B": [["read_declared"], ["try", ["amend", {"inp": ["c.txt"]}]], ["write_declared"]],
+            "C": GENERIC_WORKER,
+        },
+    }
+
+
+def shape_optional_consumer_dropped():
+    """An optional step is built only because a step of another plan consumes its output; that plan is
+    edited and drops the consumer (also: a consumer two creator levels below the edited plan).  The build
+    after the edit must already revert the optional step: a later build without changes does nothing."""
+    return {
+        "name": "optional_consumer_dropped",
+        "sources": {"plan.py": ["v1"], "sub.py": ["v1", "v2", "v3"], "inner.py": ["v1"], "s1.txt": ["a", "b"]},
+        "scripts": {
+            "./plan.py": {
+                "on": "plan.py",
+                "versions": {
+                    "v1": [
+                        ["static", ["s1.txt", "sub.py", "inner.py"]],
+                        ["step", "OPT", {"need": "OPTIONAL", "inp": ["s1.txt"], "out": ["o.txt"]}],
+                        ["step", "OPT2", {"need": "OPTIONAL", "inp": ["s1.txt"], "out": ["o2.txt"]}],
+                        ["step", "./sub.py", {"inp": ["sub.py"], "need": "PLAN"}],
+                    ]
+                },
+            },
+            "./sub.py": {
+                "on": "sub.py",
+                "versions": {
+                    "v1": [["step", "USE", {"inp": ["o.txt"], "out": ["u.txt"]}],
+                           ["step", "./inner.py", {"inp": ["inner.py"], "need": "PLAN"}]],
+                    "v2": [["step", "./inner.py", {"inp": ["inner.py"], "need": "PLAN"}]],
+                    "v3": [],
+                },
+            },
+            "./inner.py": [["step", "USE2", {"inp": ["o2.txt"], "out": ["u2.txt"]}]],
+            "OPT": GENERIC_WORKER, "OPT2": GENERIC_WORKER, "USE": GENERIC_WORKER, "USE2": GENERIC_WORKER,
+        },
+        "extra_histories": [
+            [[], [["set", "sub.py", "v2"]]],
+            [[], [["set", "sub.py", "v3"]]],
+            [[], [["set", "sub.py", "v2"]], [["set", "sub.py", "v3"]]],
+            [[], [["set", "sub.py", "v3"]], [["set", "sub.py", "v1"]], [["set", "sub.py", "v3"]]],
+        ],
+    }
+
+
 def shape_creator_fails_while_child_runs():
     """plan v2 defines the same steps and then fails while S (re)runs; v1 again recycles S."""
     steps = [
@@ -645,6 +805,28 @@ def shape_dir_glob():
     }
 
 
+def shape_glob_nodeless():
+    """A pattern whose matches lie in a static tree and are used by no step as input: the matches have no
+    file node, the pattern's recorded match set is the only trace of them in the workflow."""
+    return {
+        "name": "glob_nodeless",
+        "sources": {"plan.py": ["v1"], "data/b1/x.csv": ["a", "b"], "data/b1/y.csv": ["a", "b"], "data/b2/z.csv": ["a", "b"]},
+        "scripts": {
+            "./plan.py": {
+                "on": "plan.py",
+                "versions": {
+                    "v1": [
+                        ["tree", ["data/"]],
+                        ["glob", "data/${*b}/${*f}.csv", {}, [["step", "L:{s}", {"out": ["lst/{s}.txt"]}]]],
+                        ["nop"], ["nop"], ["nop"], ["nop"],
+                    ]
+                },
+            },
+            "L:x": GENERIC_WORKER, "L:y": GENERIC_WORKER, "L:z": GENERIC_WORKER, "L:w": GENERIC_WORKER,
+        },
+    }
+
+
 def shape_resources():
     return {
         "name": "resources",
@@ -692,6 +874,12 @@ SHAPES = {
         shape_hold_recycle,
         shape_resource_detached_running,
         shape_amend_detached_input,
+        shape_rm_before_write,
+        shape_env_shared,
+        shape_late_static,
+        shape_amend_cycle,
+        shape_optional_consumer_dropped,
+        shape_glob_nodeless,
         shape_resources,
     )
 }
@@ -989,7 +1177,7 @@ def final_sources(project, phases) -> dict:
     env: dict = {}
     for ph in phases:
         for e in ph.get("edits", []):
-            if e[0] == "set":
+            if e[0] in ("set", "swap"):
                 cur[e[1]] = e[2]
             elif e[0] == "del":
                 cur[e[1]] = None
